@@ -189,6 +189,16 @@ def check_case(ctx: Ctx, cfgname, form, text_s: str, width, wrap, align):
     except Exception as e:
         V("render-ok", f"Text.render/rows raised {e!r}", "/" + exc_site(e))
         got_rows = None
+    # the same text given as markup in two attribute runs lays out identically (attributes never move characters)
+    if got_rows is not None and form == "str" and len(text_s) >= 2:
+        k = len(text_s) // 2
+        try:
+            cm = urwid.Text([("a", text_s[:k]), ("b", text_s[k:])], align, wrap).render((width,))
+            m_rows = [b"".join(seg[2] for seg in row).decode(codec) for row in cm.content()]
+            if m_rows != got_rows:
+                V("render-ok", f"as markup [('a', {text_s[:k]!r}), ('b', {text_s[k:]!r})] the text renders as {m_rows}, plain as {got_rows}", "/markup")
+        except Exception as e:
+            V("render-ok", f"Text.render of the markup [('a', {text_s[:k]!r}), ('b', {text_s[k:]!r})] raised {e!r}", "/markup/" + exc_site(e))
     # ---- structure
     try:
         lines = parse_layout(lay)
